@@ -82,7 +82,12 @@ def _worker(job):
     out = {"idx": idx, "profile": profile, "seed": seed}
     try:
         net = make_job_net(rng, idx, profile)
-        opts = pipe_common.sample_config(rng, "mixed" if profile == "c11" else profile)
+        if profile.startswith("sweep:"):
+            import sweep
+
+            opts = sweep.config(rng, profile, idx)
+        else:
+            opts = pipe_common.sample_config(rng, "mixed" if profile == "c11" else profile)
         if rng.random() < 0.1:
             opts.append("--force-symmetric-int-weights")
         for e in getattr(net, "extra_opts", []):
@@ -338,7 +343,11 @@ def main():
 
     # ---- pipeline artefacts ----------------------------------------------------------------------
     n = 7000 if ck.thorough else 480
-    jobs = [(ck.seed, i, PROFILES[i % len(PROFILES)]) for i in range(n)]
+    import sweep
+
+    # the pattern sweep first (harness/sweep.py): every named pattern under the configurations that make it bite
+    jobs = [(ck.seed, i, p) for p, i in sweep.jobs(ck.thorough)]
+    jobs += [(ck.seed, i, PROFILES[i % len(PROFILES)]) for i in range(n)]
     outs = run_jobs(jobs)
     lines, owners = [], []
     rr_lines, rr_owners = [], []
